@@ -50,7 +50,8 @@ Definition agrees (ds : list string) (r a : asg) : bool := forallb (agree1 r a) 
 Definition restrict (ds : list string) (r : asg) : asg :=
   flat_map (fun d => match aget r d with Some v => [(d, v)] | None => [] end) ds.
 
-Record rec := mkRec { rvals : asg; rregion : option N }.
+(* rts: the record's timespan [begin, end) in seconds (visit / exposure / day_obs), None = NULL *)
+Record rec := mkRec { rvals : asg; rregion : option N; rts : option (Z * Z) }.
 Definition table := list rec.
 Definition db := list (string * table).
 Definition ovt := list (string * list (asg * N)).
@@ -257,14 +258,16 @@ Inductive outc := ROk | RInserted | RSame | RUpdated | RIntegrity | RConflict | 
 Definition has_table (c : jconf) (e : elem) : bool :=
   negb (is_skypix e) && match view_of c (ename e) with Some _ => false | None => true end.
 Definition is_spatial (e : elem) : bool := match espatial e with Some _ => true | None => false end.
+Definition is_temporal (e : elem) : bool := match etemporal e with Some _ => true | None => false end.
 
 Definition has_all (ds : list string) (r : asg) : bool :=
   forallb (fun d => match aget r d with Some _ => true | None => false end) ds.
 
-(* a record has exactly the key columns of its table; a non-spatial element has no region *)
+(* a record has exactly the key columns of its table; a non-spatial element has no region, a non-temporal one no timespan *)
 Definition wf_rec (e : elem) (r : rec) : bool :=
   list_eqb (map fst (rvals r)) (deps e) && nodupb (deps e)
-  && (is_spatial e || match rregion r with None => true | Some _ => false end).
+  && (is_spatial e || match rregion r with None => true | Some _ => false end)
+  && (is_temporal e || match rts r with None => true | Some _ => false end).
 
 (* FOREIGN KEY (required columns of d) REFERENCES d, for every dimension column d of the table that has a table *)
 Definition fk_ok (c : jconf) (d : db) (e : elem) (r : asg) : bool :=
@@ -278,8 +281,15 @@ Definition fk_ok (c : jconf) (d : db) (e : elem) (r : asg) : bool :=
 Definition same_key (e : elem) (r : asg) (r' : rec) : bool := agrees (ereq e) (rvals r') r.
 Definition oreg_eqb (a b : option N) : bool :=
   match a, b with Some x, Some y => N.eqb x y | None, None => true | _, _ => false end.
+Definition ots_eqb (a b : option (Z * Z)) : bool :=
+  match a, b with
+  | Some x, Some y => Z.eqb (fst x) (fst y) && Z.eqb (snd x) (snd y)
+  | None, None => true
+  | _, _ => false
+  end.
+(* Database.sync compares every non-key field: implied values, region, timespan *)
 Definition rec_eqb (e : elem) (a b : rec) : bool :=
-  agrees (eimp e) (rvals a) (rvals b) && oreg_eqb (rregion a) (rregion b).
+  agrees (eimp e) (rvals a) (rvals b) && oreg_eqb (rregion a) (rregion b) && ots_eqb (rts a) (rts b).
 
 Definition env_rows (env : N -> list N) (e : elem) (r : rec) : list (asg * N) :=
   match rregion r with
@@ -344,3 +354,48 @@ Fixpoint run_outs (c : jconf) (env : N -> list N) (h : list op) (s : st) : list 
 
 Definition is_skip (o : op) : bool := match okind o with OSkip => true | _ => false end.
 Definition skip_free (h : list op) : bool := forallb (fun o => negb (is_skip o)) h.
+
+(* ---- temporal families (OverlapsVisitor, kind = "temporal") ----
+   The families present in a group; an automatic temporal join would be added when exactly two are present (more:
+   InvalidQueryError), exactly as for the spatial kind.  An EXPLICIT `a.timespan OVERLAPS b.timespan` between two
+   elements of the same family is rejected (visit_temporal_dimension_join: "... is not necessary").  In the shipped
+   universe there is a single temporal family (Props/C06.v no_temporal_join_current), so the timespans of visit /
+   exposure / day_obs records never take part in a data-ID query: `query` does not read `rts`. *)
+Fixpoint snodup (l : list string) : list string :=
+  match l with [] => [] | x :: r => if memb x r then snodup r else x :: snodup r end.
+Definition temporal_fams (c : jconf) (ns : list string) : list string :=
+  snodup (flat_map (fun e => match etemporal e with Some f => [f] | None => [] end) (gelems c ns)).
+Definition tjoin_needed (c : jconf) (ns : list string) : bool := Nat.leb 2 (length (temporal_fams c ns)).
+
+Inductive tjres := TJInvalid | TJConnect | TJNotTemporal.
+Definition explicit_tjoin (c : jconf) (a b : string) : tjres :=
+  match find_elem (ju c) a, find_elem (ju c) b with
+  | Some ea, Some eb =>
+    match etemporal ea, etemporal eb with
+    | Some f, Some g => if String.eqb f g then TJInvalid else TJConnect
+    | _, _ => TJNotTemporal
+    end
+  | _, _ => TJNotTemporal
+  end.
+
+(* ---- Butler.query_dimension_records(element) / Query.dimension_records(element) ----
+   The query runs over the element's minimal group (closure of its required and implied dimensions) with the element's
+   own table joined in addition to the planned ones; every stored record whose data ID is among the rows comes back. *)
+Inductive rres := ROkRecs (rows : list rec) | RCrash | RInvalid | RIncomplete | RNoGroup.
+
+Definition recs_of_rows (d : db) (e : elem) (rows : list asg) : list rec :=
+  filter (fun r => existsb (agrees (deps e) (rvals r)) rows) (tget d (ename e)).
+
+Definition qrecords_with (c : jconf) (ov : N -> N -> bool) (s : st) (e : elem) (ns : list string) : rres :=
+  match run_plan c ov s (full_plan c ns ++ [e]) ns with
+  | QOk rows => ROkRecs (recs_of_rows (recs s) e rows)
+  | QCrash => RCrash
+  | QInvalid => RInvalid
+  | QIncomplete => RIncomplete
+  end.
+
+Definition qrecords (c : jconf) (ov : N -> N -> bool) (s : st) (e : elem) : rres :=
+  match closure (ju c) (deps e) with
+  | GOk ns => qrecords_with c ov s e ns
+  | _ => RNoGroup
+  end.
